@@ -1305,7 +1305,8 @@ class MyPyAstVisitor:
             if _check_publicity_with_reexports is not None:
                 return _check_publicity_with_reexports
 
-        if is_internal(name) and not name.endswith("__"):
+        # Names like "__call__" are not internal, but "_helper__" is: it has only one leading underscore
+        if is_internal(name) and not (name.startswith("__") and name.endswith("__")):
             return False
 
         if isinstance(parent, Class) and (name == "__init__" or not is_internal(name)):
